@@ -909,6 +909,24 @@ func genBinOpCase(r *rand.Rand) ([]MemRec, mexprIn, []evalIn) {
 			e = bin(op, vec, left, false)
 		}
 	}
+	if r.Intn(10) == 0 {
+		// vector(x) under scalar operations over several steps: every step starts from x
+		vec := &mexprIn{T: "vector", V: [][]int{{2, 1}, {1, 2}, {1, 1}, {3, 1}}[r.Intn(4)], Sel: []matcherIn{}, Stages: []stageIn{}, Param: Ints{0, 1}, Unwrap: unwrapIn{Label: Ints{}}, Grp: noGrp()}
+		op := pick(r, []string{"add", "mul", "sub", "div"})
+		sc := litExpr([][]int{{3, 1}, {2, 1}, {1, 2}, {5, 1}}[r.Intn(4)])
+		switch r.Intn(3) {
+		case 0:
+			e = bin(op, vec, sc, false)
+		case 1:
+			e = bin(op, sc, vec, false)
+		default:
+			// (an aggregation that is empty at some steps) or vector(0), then a scalar operation
+			left.Grp = noGrp()
+			left.E.ID = 1
+			e = bin(op, bin("or", left, vec, false), sc, false)
+		}
+		return recs, *e, []evalIn{{Start: mBase + 1, End: mBase + 49, Step: 6}, {Start: mBase + 13, End: mBase + 13, Step: 0}, {Start: mBase + 300, End: mBase + 330, Step: 10}}
+	}
 	if r.Intn(2) == 0 {
 		// vectors that change from step to step: records on even seconds, window edges on odd seconds (away from C09's subject)
 		for i := range recs {
